@@ -143,6 +143,7 @@ static void rel_hook(void *ptr, size_t size, void *ud) {
 #define LIB_END() (hook_armed = 0)
 
 /* ------------------------------------------------------------------ reset / teardown --------- */
+static int g_out_of_model; /* the library chose a legal capacity the reference cannot represent: the state has no successors */
 static void m_reset(void) {
     galloc_reset();
     galloc_get(g_cfg.rmode, 0);
@@ -152,6 +153,7 @@ static void m_reset(void) {
     AWS_ZERO_STRUCT(X);
     store_blk = store = NULL;
     memset(&R, 0, sizeof(R));
+    g_out_of_model = 0;
 }
 static void drop_store(void) {
     if (store_blk) galloc_release(&galloc_allocator, store_blk);
@@ -234,8 +236,11 @@ static void ref_grow(size_t newcap) {
 /* Where the header does not fix the resulting capacity ("grown appropriately", "a copy of the elements"), any
  * capacity that holds the contents is accepted and followed; it is counted so that the reading is visible. */
 static void ref_adopt_capacity(int rc) {
-    if (rc == AWS_OP_SUCCESS && X.capacity > MAXCAP + 1 && X.capacity != R.cap) {
-        esx_fail("capacity-outside-model-bound", "capacity %zu is legal but beyond what this harness can follow (reference rule gives %zu)", X.capacity, R.cap);
+    if (rc == AWS_OP_SUCCESS && X.capacity > REFCAP - 2 && X.capacity != R.cap) {
+        /* legal (the header leaves the growth policy open) but beyond what the reference arrays can follow: not a
+         * violation - this history is not continued, and the run says that it was cut */
+        g_out_of_model = 1;
+        VC("histories_cut_capacity_beyond_reference_arrays");
         return;
     }
     if (rc == AWS_OP_SUCCESS && X.capacity != R.cap && X.capacity >= R.len && X.len == R.len) {
@@ -349,6 +354,7 @@ static size_t fill_len(int v) { /* read_and_fill_buffer source lengths: 0, cap-1
 static size_t growcap(void) { return 2 * g_cfg.maxcap + 1; }
 static bool m_enabled(int op) {
     const struct opd *d = &ops[op];
+    if (g_out_of_model) return false;
     size_t fit = R.cap - R.len;
     switch (d->fn) {
         case F_INIT:
@@ -864,7 +870,7 @@ static void m_apply(int op) {
 static size_t m_canon(uint8_t *b, size_t cap) {
     (void)cap;
     size_t o = 0;
-    b[o++] = (uint8_t)R.live;
+    b[o++] = (uint8_t)(R.live | (g_out_of_model << 1));
     b[o++] = (uint8_t)R.cap;
     b[o++] = (uint8_t)R.len;
     for (size_t i = 0; i < R.cap; ++i) {
@@ -991,6 +997,7 @@ int main(int argc, char **argv) {
         model.max_depth = cfgs[i][3] == 0 ? ESX_MAX_DEPTH : (depth ? depth : (v_thorough() ? 6 : 5));
         esx_run(&model);
     }
+    if (v_counter_value("histories_cut_capacity_beyond_reference_arrays")) v_exhaustive = 0;
     v_finish();
     return (v_sh->viol_count || rc) ? 1 : 0;
 }
